@@ -54,12 +54,39 @@ void mode_indexed()
             for (tensor_size_t s = 0; s < d0; ++s)
                 for (tensor_size_t j = 0; j < d1; ++j) ok &= (idx(i) != s || sub(i, j) == src(s, j)) ? 1 : 0;
         sbv_check(ok, "indexed: rank 2, row i is row idx(i) of the source");
+        // the caller-provided buffer is re-used for a gather of a different shape (also: same element count, different shape)
+        {
+            tensor_mem_t<int32_t, 2> buf;
+            src.indexed(idx, buf);
+            const auto d1b = sbv_cfg("d1b", 3), k2 = sbv_cfg("k2", 2);
+            tensor_mem_t<int32_t, 2> src2(d0, d1b);
+            fill_symbolic(src2, "y");
+            indices_t idx2(k2);
+            for (tensor_size_t i = 0; i < k2; ++i) idx2(i) = sbv_range("idx2", 0, d0 - 1);
+            src2.indexed(idx2, buf);
+            int ok2 = (buf.size<0>() == k2 && buf.size<1>() == d1b) ? 1 : 0;
+            sbv_check(ok2, "indexed into a re-used buffer: result dims = (#indices, remaining dims)");
+            if (ok2)
+            {
+                int same = 1;
+                for (tensor_size_t i = 0; i < k2; ++i)
+                    for (tensor_size_t s = 0; s < d0; ++s)
+                        for (tensor_size_t j = 0; j < d1b; ++j) same &= (idx2(i) != s || buf(i, j) == src2(s, j)) ? 1 : 0;
+                sbv_check(same, "indexed into a re-used buffer: row i is row idx(i) of the source");
+            }
+        }
     }
     else
     {
         tensor_mem_t<int16_t, 3> src(d0, d1, d2);
         fill_symbolic(src, "x");
         tensor_mem_t<int16_t, 3> sub;
+        {
+            // the buffer has been used before (empty index list on the same source): dims must follow the new request
+            indices_t none(0);
+            src.indexed(none, sub);
+            sbv_check(sub.size<0>() == 0 && sub.size<1>() == d1 && sub.size<2>() == d2, "indexed with an empty index list: dims = (0, remaining dims)");
+        }
         src.indexed(idx, sub);
         sbv_check(sub.size<0>() == k && sub.size<1>() == d1 && sub.size<2>() == d2, "indexed: result dims = (#indices, remaining dims)");
         int ok = 1;
